@@ -151,8 +151,44 @@ def boundary_stream(rng, tier):
         for _ in range(30 if tier == "quick" else 400):
             a = rng.choice(edges) + rng.choice([-1, 0, 1]); b = rng.choice(edges + SMALL) + rng.choice([-1, 0, 1])
             R([push(num(a)), push(num(b)), op(o)])
+    # audit: every arithmetic / comparison opcode on negative zero, 5- and 9-byte numbers, +-2^31, +-2^63 and the
+    # values whose encoding needs an extra sign byte, against small operands of both signs, in both positions,
+    # always with a sentinel item below (the whole stack is compared, not only the top)
+    WIDE = ["80", "0080", num(2 ** 32 + 5), num(-(2 ** 32 + 5)), num(2 ** 64 + 1), num(-(2 ** 64 + 1)), num(2 ** 31), num(-(2 ** 31)),
+            num(2 ** 31 - 1), num(-(2 ** 31 - 1)), num(2 ** 63), num(-(2 ** 63)), num(2 ** 63 - 1), num(127), num(-127), num(128), num(-128),
+            num(255), num(-255), num(256), num(-256), num(32767), num(-32767), num(32768), num(-32768), num(8388607), num(8388608), "0500000080", "0100000000"]
+    NARROW = [num(-3), num(2), num(128), num(-(2 ** 31)), num(1), ""]
+    for o in BINARY_NUM:
+        for w in WIDE:
+            for v in (NARROW if tier == "thorough" else NARROW[:4]):
+                R(["0109", push(w), push(v), op(o)]); R(["0109", push(v), push(w), op(o)])
+        for w in WIDE[:12]:
+            R(["0109", push(w), push(w), op(o)])
+    for a in (7, -7, 8, -8, 0, 1, -1, 2 ** 31, -(2 ** 31), 2 ** 63, -(2 ** 63)):
+        for b in (3, -3, 2, -2, 1, -1, 0, 2 ** 31, -(2 ** 63)):
+            R(["0109", push(num(a)), push(num(b)), "96"]); R(["0109", push(num(a)), push(num(b)), "97"])
+    for e in [127, 128, 255, 256, 32767, 32768, 8388607, 8388608, 2 ** 31 - 1, 2 ** 31, 2 ** 63 - 1, 2 ** 63]:
+        for d in (1, -1, 2, -2):
+            for sg in (1, -1):
+                R(["0109", push(num(sg * e)), push(num(d)), "93"]); R(["0109", push(num(sg * e)), push(num(d)), "94"])
+                R(["0109", push(num(sg * e)), push(num(d)), "95"]); R(["0109", push(num(d)), push(num(sg * e)), "94"])
+    for w in WIDE:
+        for o in UNARY_NUM + [105, 115, 130, 131, 118]:
+            R(["0109", push(w), op(o)])
+        R(["0109", push(w), push(w), push(w), "a5"]); R(["0109", push(w), "00", push(w), "a5"]); R(["0109", "00", push(w), "51", "a5"])
+    # IF / NOTIF (and the VERIF / VERNOTIF conditionals) on condition operands of every width 0..33
+    for wd in range(0, 34):
+        conds = {"00" * wd, "00" * max(0, wd - 1) + "80" * min(1, wd), "00" * max(0, wd - 1) + "01" * min(1, wd),
+                 "80" * min(1, wd) + "00" * max(0, wd - 1), "01" * min(1, wd) + "00" * max(0, wd - 1), "00" * (wd // 2) + "80" * min(1, wd) + "00" * max(0, wd - wd // 2 - 1)}
+        for c in sorted(conds):
+            for code in ("63", "64"):
+                R(["0109", push(c), code, "55", "67", "56", "68"])
+            if wd in (0, 1, 2, 4, 5, 8, 9, 33):
+                R(["0109", push(c), "65", "55", "67", "56", "68"]); R(["0109", push(c), "66", "55", "67", "56", "68"])
+                R(["0109", push(c), "69"]); R(["0109", push(c), "73"]); R(["0109", push(c), "51", "9a"]); R(["0109", push(c), "00", "9b"])
     # truthiness
     for t in TRUTH:
+        R([push(t), "65", "55", "67", "56", "68"]); R([push(t), "66", "55", "67", "56", "68"]); R([push(t), "66", "55", "68"])
         R([push(t), "63", "55", "67", "56", "68"]); R([push(t), "64", "55", "67", "56", "68"])
         R([push(t), "63", "55", "68"]); R([push(t), "64", "55", "68"])
         R([push(t), "69"]); R([push(t), "73"]); R([push(t), "91"]); R([push(t), "92"])
